@@ -4,7 +4,7 @@
 
 job: {"items": [{"name", "seed", "params"}], "order": [indices, repeats allowed],
       "perturb_time": null | {"offset": s, "jump": s, "seed": n}, "detail": bool,
-      "interleave_construct": bool}
+      "interleave_construct": bool, "precede_other_seed": bool}
 Runs the catalogue scenarios in the given order in THIS interpreter (whose
 PYTHONHASHSEED was chosen by the parent) and reports one canonical digest per
 execution: sha256 over the delivery log (time ns, event type, target name) seen
@@ -109,6 +109,15 @@ def main():
         item = job["items"][idx]
         rec = {"i": idx, "pos": pos}
         try:
+            if job.get("precede_other_seed"):
+                # the same model built and run with ANOTHER seed earlier in this interpreter (a sweep over seeds):
+                # whatever the library memoises at module level must be keyed by everything it depends on
+                try:
+                    other = CATALOGUE[item["name"]](item["seed"] ^ 0x5BD1E995, item.get("params") or {})
+                    with EngineProbe(log_deliveries=False, instant_cap=20000, total_cap=300000) as p0:
+                        p0.run(other.sim)
+                except Exception:  # noqa: BLE001
+                    pass
             sc = CATALOGUE[item["name"]](item["seed"], item.get("params") or {})
             if job.get("interleave_construct"):
                 _construct_bystander()
